@@ -50,7 +50,10 @@ def reset():
     ml.ML_ALLOWLIST.update(copy.deepcopy(BASE0))
 
 
-def replay(hist, shared=False, mediated=False):
+STREAMS = {}
+
+
+def replay(hist, shared=False, mediated=False, keep_streams=False):
     """mediated=True: while an activation is in force, an unpickler with additions is constructed through the pickle
     module (`pickle.Unpickler(f, also_allow=A)`, the class the activation installed) rather than by naming the class.
     shared=True: the caller keeps ONE additions list per use (activations / constructions) and edits it in place; no
@@ -88,8 +91,16 @@ def replay(hist, shared=False, mediated=False):
             inst(b"N.")       # constructing is the step
         st = {"op": op}
         # through the entry points of the pickle module (alternating which one)
-        entry = [lambda d: pickle.loads(d), lambda d: pickle.load(io.BytesIO(d)),
-                 lambda d: _pickle.loads(d), lambda d: _pickle.load(io.BytesIO(d))]
+        def stream(d):
+            # half of the histories read every probe from ONE long-lived stream object per pickle (rewound before each
+            # load): what is permitted depends on the activation in force, not on what read that stream before
+            if not keep_streams:
+                return io.BytesIO(d)
+            st = STREAMS.setdefault(d, io.BytesIO(d))
+            st.seek(0)
+            return st
+        entry = [lambda d: pickle.loads(d), lambda d: pickle.load(stream(d)),
+                 lambda d: _pickle.loads(d), lambda d: _pickle.load(stream(d))]
         st["env"] = [outcome(lambda g=g, k=k: entry[(k + len(steps)) % 4](pk(g))) for k, g in enumerate(GLOBALS)]
         st["plain_ran"] = not shared
         st["plain"] = [outcome(lambda g=g: ml.FicklingMLUnpickler(io.BytesIO(pk(g))).load()) for g in GLOBALS] if not shared else ["na"] * len(GLOBALS)
@@ -107,7 +118,7 @@ def main():
         m, n = g.rsplit(".", 1)
         if (m in BASE0 and n in BASE0[m]) != want:
             raise SystemExit(f"vocabulary assumption broken: {g} in built-in allowlist = {not want}")
-    out = [{"id": i, "hist": h, "steps": replay(h, shared=(i % 2 == 1), mediated=(i % 4 >= 2))} for i, h in enumerate(hists)]
+    out = [{"id": i, "hist": h, "steps": replay(h, shared=(i % 2 == 1), mediated=(i % 4 >= 2), keep_streams=(i % 3 == 0))} for i, h in enumerate(hists)]
     json.dump(out, open(sys.argv[2], "w"))
 
 
